@@ -359,7 +359,9 @@ def Step.attrOK (v : Variant) (s : Step) : Prop :=
 
 theorem tester_attr_eq_testOK (d : Doc) (t : Test) (m : Nat) :
     (tester d true (.t t) m != .none) = testOK d true t m := by
-  cases t <;> simp [tester, testOK] <;> split <;> simp_all
+  have key : ∀ (c : Bool) (sc : Score), sc ≠ .none → ((if c = true then sc else Score.none) != Score.none) = c := by
+    intro c sc hs; cases c <;> simp [hs]
+  cases t <;> simp only [tester, testOK, if_true] <;> first | exact key _ _ (by decide) | rfl
 
 theorem tester_attr_kind (d : Doc) (t : Test) (ht : (∃ nm, t = .name nm) ∨ t = .any) (m : Nat)
     (h : tester d true (.t t) m ≠ .none) : d.kind m = .attr := by
